@@ -269,9 +269,172 @@ def t_unflatten(tree):
     return tree
 
 
-TRANSFORMS = {"rename": t_rename, "negate": t_negate, "flip": t_flip, "demorgan": t_demorgan, "enum": t_enum, "temp": t_temp,
+# ------------------------------------------------------------------ ifexp
+def t_ifexp(tree):
+    """if C: x = A  else: x = B   ->   x = A if C else B     (same single simple target in both branches)"""
+    class T(ast.NodeTransformer):
+        def visit_If(self, n):
+            self.generic_visit(n)
+            if len(n.body) == 1 and len(n.orelse) == 1 and isinstance(n.body[0], ast.Assign) and isinstance(n.orelse[0], ast.Assign) \
+                    and len(n.body[0].targets) == 1 and isinstance(n.body[0].targets[0], ast.Name) \
+                    and ast.dump(n.body[0].targets[0]) == ast.dump(n.orelse[0].targets[0]):
+                return ast.copy_location(ast.Assign(targets=n.body[0].targets, value=ast.IfExp(test=n.test, body=n.body[0].value, orelse=n.orelse[0].value)), n)
+            if len(n.body) == 1 and len(n.orelse) == 1 and isinstance(n.body[0], ast.Return) and isinstance(n.orelse[0], ast.Return) \
+                    and n.body[0].value is not None and n.orelse[0].value is not None:
+                return ast.copy_location(ast.Return(value=ast.IfExp(test=n.test, body=n.body[0].value, orelse=n.orelse[0].value)), n)
+            return n
+    return T().visit(tree)
+
+
+# ------------------------------------------------------------------ comp
+def t_comp(tree):
+    """acc = []; for v in X: acc.append(E)   ->   acc = [E for v in X]     (nothing else in the loop, acc not read in E / X,
+    loop variables not read after the loop)"""
+    def block(stmts, fn_names_after):
+        out = []
+        i = 0
+        while i < len(stmts):
+            s = stmts[i]
+            for f in ("body", "orelse", "finalbody"):
+                b = getattr(s, f, None)
+                if isinstance(b, list) and b and isinstance(b[0], ast.stmt):
+                    setattr(s, f, block(b, fn_names_after))
+            if isinstance(s, ast.Try):
+                for h in s.handlers:
+                    h.body = block(h.body, fn_names_after)
+            nxt = stmts[i + 1] if i + 1 < len(stmts) else None
+            if isinstance(s, ast.Assign) and len(s.targets) == 1 and isinstance(s.targets[0], ast.Name) and isinstance(s.value, ast.List) and not s.value.elts \
+                    and isinstance(nxt, ast.For) and not nxt.orelse and len(nxt.body) == 1 and isinstance(nxt.body[0], ast.Expr) \
+                    and isinstance(nxt.body[0].value, ast.Call) and isinstance(nxt.body[0].value.func, ast.Attribute) \
+                    and nxt.body[0].value.func.attr == "append" and isinstance(nxt.body[0].value.func.value, ast.Name) \
+                    and nxt.body[0].value.func.value.id == s.targets[0].id and len(nxt.body[0].value.args) == 1:
+                acc = s.targets[0].id
+                e = nxt.body[0].value.args[0]
+                names = {n.id for n in ast.walk(e) if isinstance(n, ast.Name)} | {n.id for n in ast.walk(nxt.iter) if isinstance(n, ast.Name)}
+                tvars = {n.id for n in ast.walk(nxt.target) if isinstance(n, ast.Name)}
+                later = {n.id for t in stmts[i + 2:] for n in ast.walk(t) if isinstance(n, ast.Name)}
+                if acc not in names and not (tvars & (later | fn_names_after)) and not has_call_yield(e):
+                    comp = ast.ListComp(elt=e, generators=[ast.comprehension(target=nxt.target, iter=nxt.iter, ifs=[], is_async=0)])
+                    out.append(ast.copy_location(ast.Assign(targets=s.targets, value=comp), s))
+                    i += 2
+                    continue
+            out.append(s)
+            i += 1
+        return out
+
+    def has_call_yield(e):
+        return any(isinstance(n, (ast.Yield, ast.YieldFrom, ast.Await, ast.NamedExpr)) for n in ast.walk(e))
+    for fn in functions(tree):
+        # only at the top level of function bodies (so that "later" is the real continuation)
+        fn.body = block(fn.body, set())
+    return tree
+
+
+# ------------------------------------------------------------------ guard
+def t_guard(tree):
+    """for ..: PRE; if C: BODY   (the if is the last statement of the loop body, no else)  ->  for ..: PRE; if not C: continue; BODY"""
+    class T(ast.NodeTransformer):
+        def visit_For(self, n):
+            self.generic_visit(n)
+            if n.body and isinstance(n.body[-1], ast.If) and not n.body[-1].orelse and len(n.body[-1].body) >= 2:
+                last = n.body[-1]
+                guard = ast.copy_location(ast.If(test=ast.UnaryOp(op=ast.Not(), operand=last.test), body=[ast.Continue()], orelse=[]), last)
+                n.body = n.body[:-1] + [guard] + last.body
+            return n
+    return T().visit(tree)
+
+
+# ------------------------------------------------------------------ tuple
+def t_tuple(tree):
+    """a = E1; b = E2  ->  a, b = E1, E2    (two consecutive assignments to distinct plain names, E2 does not read a, both call free)"""
+    def block(stmts):
+        out = []
+        i = 0
+        while i < len(stmts):
+            s = stmts[i]
+            for f in ("body", "orelse", "finalbody"):
+                b = getattr(s, f, None)
+                if isinstance(b, list) and b and isinstance(b[0], ast.stmt):
+                    setattr(s, f, block(b))
+            if isinstance(s, ast.Try):
+                for h in s.handlers:
+                    h.body = block(h.body)
+            nxt = stmts[i + 1] if i + 1 < len(stmts) else None
+
+            def simple(x):
+                return isinstance(x, ast.Assign) and len(x.targets) == 1 and isinstance(x.targets[0], ast.Name) and not has_call(x.value) \
+                    and not isinstance(x.value, (ast.List, ast.Dict, ast.ListComp, ast.Tuple))
+            if simple(s) and simple(nxt) and s.targets[0].id != nxt.targets[0].id \
+                    and s.targets[0].id not in {n.id for n in ast.walk(nxt.value) if isinstance(n, ast.Name)}:
+                tgt = ast.Tuple(elts=[s.targets[0], nxt.targets[0]], ctx=ast.Store())
+                val = ast.Tuple(elts=[s.value, nxt.value], ctx=ast.Load())
+                out.append(ast.copy_location(ast.Assign(targets=[tgt], value=val), s))
+                i += 2
+                continue
+            out.append(s)
+            i += 1
+        return out
+    for fn in functions(tree):
+        fn.body = block(fn.body)
+    return tree
+
+
+# ------------------------------------------------------------------ while
+def t_while(tree):
+    """for i in range(a, b): BODY  ->  i = a; while i < b: BODY; i += 1     (top level of a function body; BODY has no
+    continue and does not assign i; a, b free of calls other than len(); b reads nothing BODY stores; i not read afterwards)"""
+    def block(stmts):
+        out = []
+        for k, s in enumerate(stmts):
+            ok = isinstance(s, ast.For) and not s.orelse and isinstance(s.target, ast.Name) and isinstance(s.iter, ast.Call) \
+                and isinstance(s.iter.func, ast.Name) and s.iter.func.id == "range" and 1 <= len(s.iter.args) <= 2 and not s.iter.keywords
+            if ok:
+                i = s.target.id
+                a = s.iter.args[0] if len(s.iter.args) == 2 else ast.Constant(value=0)
+                b = s.iter.args[-1]
+                for e in (a, b):
+                    for n in ast.walk(e):
+                        if isinstance(n, ast.Call) and not (isinstance(n.func, ast.Name) and n.func.id == "len"):
+                            ok = False
+                body = ast.Module(body=s.body, type_ignores=[])
+                stored = set()
+                for n in ast.walk(body):
+                    if isinstance(n, (ast.Continue, ast.FunctionDef, ast.Lambda)):
+                        ok = False
+                    if isinstance(n, ast.Name) and isinstance(n.ctx, (ast.Store, ast.Del)):
+                        stored.add(n.id)
+                    if isinstance(n, ast.Call) and isinstance(n.func, ast.Attribute):
+                        r = n.func.value
+                        while isinstance(r, (ast.Attribute, ast.Subscript)):
+                            r = r.value
+                        if isinstance(r, ast.Name):
+                            stored.add(r.id)
+                    if isinstance(n, (ast.Attribute, ast.Subscript)) and isinstance(n.ctx, (ast.Store, ast.Del)):
+                        r = n
+                        while isinstance(r, (ast.Attribute, ast.Subscript)):
+                            r = r.value
+                        if isinstance(r, ast.Name):
+                            stored.add(r.id)
+                if i in stored or ({n.id for n in ast.walk(b) if isinstance(n, ast.Name)} & stored):
+                    ok = False
+                if any(isinstance(n, ast.Name) and n.id == i for t in stmts[k + 1:] for n in ast.walk(t)):
+                    ok = False
+            if ok:
+                out.append(ast.copy_location(ast.Assign(targets=[ast.Name(id=i, ctx=ast.Store())], value=a), s))
+                w = ast.While(test=ast.Compare(left=ast.Name(id=i, ctx=ast.Load()), ops=[ast.Lt()], comparators=[b]),
+                              body=s.body + [ast.AugAssign(target=ast.Name(id=i, ctx=ast.Store()), op=ast.Add(), value=ast.Constant(value=1))], orelse=[])
+                out.append(ast.copy_location(w, s))
+            else:
+                out.append(s)
+        return out
+    for fn in functions(tree):
+        fn.body = block(fn.body)
+    return tree
+
+
+TRANSFORMS = {"ifexp": t_ifexp, "comp": t_comp, "guard": t_guard, "tuple": t_tuple, "while": t_while, "rename": t_rename, "negate": t_negate, "flip": t_flip, "demorgan": t_demorgan, "enum": t_enum, "temp": t_temp,
               "flatten": t_flatten, "unflatten": t_unflatten}
-COMBOS = [("rename", "temp"), ("negate", "flip"), ("enum", "rename", "flatten"), ("temp", "negate", "unflatten")]
+COMBOS = [("comp", "rename", "guard"), ("while", "tuple", "ifexp"), ("rename", "temp"), ("negate", "flip"), ("enum", "rename", "flatten"), ("temp", "negate", "unflatten")]
 
 
 def make_variant(names, dest):
